@@ -72,11 +72,15 @@ PL_Regions == [A1 |-> SL!Str("A", "1"), A2 |-> SL!Pair(SL!IntN(1), SL!IntN(2)), 
                col1 |-> SL!Pair(SL!All, SL!IntN(1)), col2 |-> SL!Pair(SL!Slc(SL!IntN(1), SL!None, 0), SL!Lbl("2")),
                all |-> SL!All, plate |-> SL!All,
                list2 |-> SL!Lst(<<SL!Str("A", "1"), SL!Pair(SL!IntN(2), SL!IntN(2))>>),
-               list2b |-> SL!Lst(<<SL!Pair(SL!Lbl("A"), SL!IntN(2)), SL!Str("B", "1")>>)]
+               list2b |-> SL!Lst(<<SL!Pair(SL!Lbl("A"), SL!IntN(2)), SL!Str("B", "1")>>),
+               \* narrowed selections: plate[:][1::2] (= row 2) and plate[:, 1:][0:2:2, 1:] (= well A,2)
+               narrowB |-> SL!Sub(SL!All, SL!PySl(1, -1, 2), SL!PyAll),
+               narrowA2 |-> SL!Sub(SL!Pair(SL!All, SL!Slc(SL!IntN(1), SL!None, 0)), SL!PySl(0, 2, 2), SL!PySl(1, -1, 0))]
 PL_Forms == <<
   \* container -> wells
   F4("s", "-", "p", "A1"), F4("s", "-", "p", "row2"), F4("s", "-", "p", "col2"), F4("s", "-", "p", "all"),
-  F4("s", "-", "p", "plate"), F4("s", "-", "p", "list2"), F4("s", "-", "q", "plate"),
+  F4("s", "-", "p", "plate"), F4("s", "-", "p", "list2"), F4("s", "-", "q", "plate"), F4("s", "-", "p", "narrowB"),
+  F4("p", "narrowA2", "t", "-"), F4("p", "narrowB", "q", "all"),
   \* wells -> container
   F4("p", "A1", "t", "-"), F4("p", "row1", "t", "-"), F4("p", "col1", "t", "-"), F4("p", "plate", "t", "-"),
   F4("p", "list2", "t", "-"), F4("q", "all", "t", "-"),
@@ -96,10 +100,10 @@ PL_CapStep == R(1, 2)
 RC(n, r, what) == [n |-> n, r |-> r, what |-> what]
 PL_Remove == <<RC("p", "plate", "W"), RC("p", "row1", "liquid"), RC("p", "col1", "W"), RC("p", "B1", "enzyme"),
                RC("p", "list2", "W"), RC("p", "all", "solid"), RC("p", "A2", "D"), RC("q", "plate", "liquid"),
-               RC("p", "row2", "E"), RC("s", "-", "solid")>>
+               RC("p", "row2", "E"), RC("s", "-", "solid"), RC("p", "narrowB", "enzyme"), RC("p", "narrowA2", "liquid")>>
 FC(n, r, solvent, u) == [n |-> n, r |-> r, solvent |-> solvent, u |-> u]
 PL_Fill == <<FC("p", "plate", "W", "L"), FC("p", "row1", "W", "L"), FC("p", "col2", "D", "g"), FC("p", "B2", "W", "mol"),
-             FC("p", "list2", "W", "L"), FC("p", "row2", "N", "g"), FC("q", "all", "W", "L"), FC("t", "-", "W", "L")>>
+             FC("p", "list2", "W", "L"), FC("p", "row2", "N", "g"), FC("q", "all", "W", "L"), FC("t", "-", "W", "L"), FC("p", "narrowB", "W", "L")>>
 PL_FillDeltas == {One, R(-1, 2)}
 
 (***************************************************************************)
